@@ -54,6 +54,7 @@ type Ctx struct {
 	exhaust   bool
 	cut       []string
 	known     []knownEntry
+	flaky     []string
 }
 
 type knownEntry struct {
@@ -61,13 +62,21 @@ type knownEntry struct {
 }
 
 type shardedSet struct {
+	n  int64
 	sh [64]struct {
 		mu sync.Mutex
 		m  map[uint64]struct{}
 	}
 }
 
+// setCap bounds the memory of a distinct-case set (8 bytes + map overhead per entry); beyond it no
+// new entries are stored, so the reported count is a lower bound (stated in the evidence).
+const setCap = 40_000_000
+
 func (s *shardedSet) add(h uint64) bool {
+	if atomic.LoadInt64(&s.n) >= setCap {
+		return false
+	}
 	x := &s.sh[h&63]
 	x.mu.Lock()
 	if x.m == nil {
@@ -76,6 +85,7 @@ func (s *shardedSet) add(h uint64) bool {
 	_, ok := x.m[h]
 	if !ok {
 		x.m[h] = struct{}{}
+		atomic.AddInt64(&s.n, 1)
 	}
 	x.mu.Unlock()
 	return !ok
@@ -211,8 +221,16 @@ func (c *Ctx) Violate(v Violation, recheck func() string) {
 	if recheck != nil {
 		for i := 0; i < 5; i++ {
 			if m := recheck(); m != v.Sig {
-				fmt.Printf("HARNESS-ERROR property=%s non-reproducible violation sig=%s msg=%q replay%d observed sig=%q\n", c.ID, v.Sig, v.Msg, i, m)
-				os.Exit(2)
+				// Not reproduced. The harness is deterministic, so this happens only when the code under test
+				// carries state from one execution to the next (a package-level cache, a shared buffer). The
+				// candidate is kept aside: it is never reported as a VIOLATION by itself; if the run ends with
+				// no reproducible violation at all, the run is a harness error (exit 2), not a pass.
+				c.mu.Lock()
+				if len(c.flaky) < 20 {
+					c.flaky = append(c.flaky, fmt.Sprintf("sig=%s msg=%q replay%d observed sig=%q", v.Sig, v.Msg, i, m))
+				}
+				c.mu.Unlock()
+				return
 			}
 		}
 	}
@@ -308,12 +326,24 @@ func (c *Ctx) Finish() int {
 		fmt.Printf("VIOLATION property=%s replay=%s\n", c.ID, path)
 		exit = 1
 	}
+	if len(c.flaky) > 0 {
+		for _, f := range c.flaky {
+			fmt.Printf("  non-reproducible candidate (state carried between executions by the code under test?): %s\n", f)
+		}
+		if exit == 0 && len(knownLines) == 0 {
+			fmt.Printf("HARNESS-ERROR property=%s %d violation candidate(s) could not be reproduced and nothing reproducible was found\n", c.ID, len(c.flaky))
+			return 2
+		}
+	}
 	cov := map[string]interface{}{}
 	for k, v := range c.extra {
 		cov[k] = v
 	}
 	cov["evaluations"] = c.Evals()
 	cov["distinct_nontrivial"] = c.nontriv.size()
+	if c.nontriv.size() >= setCap {
+		cov["distinct_nontrivial_note"] = fmt.Sprintf("lower bound: the distinct-case set is capped at %d entries to bound memory", setCap)
+	}
 	cov["rule"] = c.rule
 	if len(c.samples) == 0 {
 		c.samples = append(c.samples, "(no sample recorded)")
